@@ -226,8 +226,10 @@ func runC18(r *Rng, n int, replay string) {
 				c.fail("cannot begin a transaction: "+err.Error(), which+":begin")
 				return
 			}
+			handlerRuns := 0
 			mkHandler := func(h int) keyvalue.OpHandler {
 				return keyvalue.OpHandlerFunc(func(t keyvalue.Transaction, res keyvalue.OpResult) error {
+					handlerRuns++
 					if h == 2 || h == 3 {
 						_ = t.Abort()
 					}
@@ -238,6 +240,7 @@ func runC18(r *Rng, n int, replay string) {
 				})
 			}
 			for ci, cl := range calls {
+				runsBefore := handlerRuns
 				switch cl.kind {
 				case "get":
 					var op keyvalue.OpID
@@ -248,6 +251,9 @@ func runC18(r *Rng, n int, replay string) {
 					}
 					obs = append(obs, obsT{kind: "id", id: int(op)})
 					issued = append(issued, int(op))
+					if refAborted && handlerRuns != runsBefore {
+						c.fail(fmt.Sprintf("[%s] %s: the handler of call %d (a Get issued after the transaction was aborted) was run", which, strings.Join(text, "; "), ci), which+":handler-after-abort")
+					}
 					e := tRes{id: len(expect), val: -1, err: "RNone"}
 					if refAborted {
 						e.err = "RCanceled"
@@ -278,6 +284,9 @@ func runC18(r *Rng, n int, replay string) {
 					}
 					obs = append(obs, obsT{kind: "id", id: int(op)})
 					issued = append(issued, int(op))
+					if refAborted && handlerRuns != runsBefore {
+						c.fail(fmt.Sprintf("[%s] %s: the handler of call %d (a Set issued after the transaction was aborted) was run", which, strings.Join(text, "; "), ci), which+":handler-after-abort")
+					}
 					e := tRes{id: len(expect), val: -1, err: "RNone"}
 					if refAborted {
 						e.err = "RCanceled"
